@@ -277,10 +277,10 @@ def Clock.tick (c : Clock) (x : Req × Ans) : Clock :=
 
 def elapsedOf (t : Trace) : Nat := (t.foldl Clock.tick {}).el
 
-/-- callbacks whose `AbortRetryError` ends an `execute()` run as ABORTED (the observability hooks'
+/-- callbacks whose `AbortRetryError` the library does not swallow (the observability hooks'
     exceptions are swallowed; the attempt hooks and the abort predicate are outside the environment) -/
 def abortKind : Req → Bool
-  | .op _ | .resultClassify _ | .strategy .. | .stratRecordFailure .. | .stratRecordSuccess _
+  | .op _ | .classify _ | .resultClassify _ | .strategy .. | .stratRecordFailure .. | .stratRecordSuccess _
   | .sleepHandler .. | .sleeper .. => true
   | _ => false
 
